@@ -71,7 +71,7 @@ Proof.
       destruct (IH fs' xs' eq_refl) as [I1 I2]. cbn [app]. auto.
 Qed.
 Theorem enc_emb_spec ds vs fs xs : reached (type_fields ds) vs = Some (fs, xs) ->
-  enc_emb ds vs = fields_enc (fun t x => enc t x) fs xs [] /\
+  enc_emb ds vs = fields_enc (fun t x => enc t x) (fun t x => enc_l t x) fs xs [] /\
   combine fs xs = flat_map (visit vs) (type_fields ds).
 Proof.
   intros H. unfold enc_emb. rewrite H. split; [reflexivity|]. now apply reached_spec in H.
@@ -85,3 +85,99 @@ Theorem unm_emb_spec ds es : unm_emb (TCompound es) ds =
   | None => EOut
   end.
 Proof. reflexivity. Qed.
+
+(* ---------- THE DECODER stores every decoded value at the index sequence of its table entry ---------- *)
+Section DfieldInd.
+  Variable P : dfield -> Prop.
+  Hypothesis HF : forall fi tg t, P (DF fi tg t).
+  Hypothesis HE : forall ptr ds, Forall P ds -> P (DE ptr ds).
+  Fixpoint dfield_ind' (d : dfield) : P d :=
+    match d with
+    | DF fi tg t => HF fi tg t
+    | DE ptr ds => HE ptr ds ((fix go (ds : list dfield) : Forall P ds :=
+                                 match ds with [] => Forall_nil P | x :: r => Forall_cons x (dfield_ind' x) (go r) end) ds)
+    end.
+End DfieldInd.
+
+Definition walk1 (p : list nat) (d : dv) : option (option gv) :=
+  match d with
+  | VF v => match p with [] => Some (Some v) | _ => None end
+  | VE (Some vs') => walk p vs'
+  | VE None => Some None
+  end.
+Lemma walk_cons i p vs : walk (i :: p) vs = match nth_error vs i with Some d => walk1 p d | None => None end.
+Proof. cbn [walk]. destruct (nth_error vs i) as [[v|[vs'|]]|]; reflexivity. Qed.
+
+Lemma cands_f_DE pre i ptr ds : cands_f pre i (DE ptr ds) = cands_l (pre ++ [i]) O ds.
+Proof.
+  cbn [cands_f]. generalize O. induction ds as [|d r IH]; intros j; [reflexivity|].
+  cbn [cands_l]. rewrite <- IH. reflexivity.
+Qed.
+Lemma rebuild_f_DE sel acc pre i ptr ds : rebuild_f sel acc pre i (DE ptr ds) =
+  if ptr && negb (existsb (fun tf => is_prefix (pre ++ [i]) (tf_path tf) && has_key acc (f_name (tf_fi tf))) sel)
+  then VE None else VE (Some (rebuild_l sel acc (pre ++ [i]) O ds)).
+Proof.
+  cbn [rebuild_f]. cbv zeta.
+  assert (E : forall j, (fix go (j : nat) (ds : list dfield) {struct ds} : list dv :=
+                 match ds with [] => [] | d' :: r => rebuild_f sel acc (pre ++ [i]) j d' :: go (S j) r end) j ds
+              = rebuild_l sel acc (pre ++ [i]) j ds).
+  { induction ds as [|d r IH]; intros j; [reflexivity|]. cbn [rebuild_l]. rewrite <- IH. reflexivity. }
+  rewrite E. reflexivity.
+Qed.
+
+Lemma path_eqb_refl p : path_eqb p p = true.
+Proof. now apply path_eqb_spec. Qed.
+Lemma is_prefix_app a b : is_prefix a (a ++ b) = true.
+Proof. induction a as [|x a IH]; cbn [is_prefix app]; [reflexivity|]. now rewrite Nat.eqb_refl, IH. Qed.
+
+Section Stored.
+  Variable sel : list tfield.
+  Variable acc : list (list N * gv).
+
+  Definition stored_f (d : dfield) : Prop := forall pre i tf y,
+    In tf (cands_f pre i d) -> In tf sel -> assoc (f_name (tf_fi tf)) acc = Some y ->
+    exists q, tf_path tf = pre ++ i :: q /\ walk1 q (rebuild_f sel acc pre i d) = Some (Some y).
+  Definition stored_l (ds : list dfield) : Prop := forall pre j tf y,
+    In tf (cands_l pre j ds) -> In tf sel -> assoc (f_name (tf_fi tf)) acc = Some y ->
+    exists k q d, tf_path tf = pre ++ (j + k)%nat :: q /\
+                  nth_error (rebuild_l sel acc pre j ds) k = Some d /\ walk1 q d = Some (Some y).
+
+  Lemma stored_list ds : Forall stored_f ds -> stored_l ds.
+  Proof.
+    induction 1 as [|d r Hd Hr IH]; intros pre j tf y Hin Hs Ha; [destruct Hin|].
+    cbn [cands_l] in Hin. apply in_app_or in Hin. destruct Hin as [Hin|Hin].
+    - destruct (Hd pre j tf y Hin Hs Ha) as (q & E & W). exists O, q, (rebuild_f sel acc pre j d).
+      rewrite Nat.add_0_r. repeat split; auto.
+    - destruct (IH pre (S j) tf y Hin Hs Ha) as (k & q & d' & E & N & W). exists (S k), q, d'.
+      replace (j + S k)%nat with (S j + k)%nat by lia. repeat split; auto.
+  Qed.
+
+  Lemma stored_all : forall d, stored_f d.
+  Proof.
+    induction d as [fi tg t|ptr ds IH] using dfield_ind'; intros pre i tf y Hin Hs Ha.
+    - cbn [cands_f] in Hin. destruct (f_skip fi); [destruct Hin|]. destruct Hin as [<-|[]].
+      exists []. split; [reflexivity|]. cbn [rebuild_f walk1 tf_fi tf_path] in *.
+      assert (E : existsb (fun tf' => path_eqb (tf_path tf') (pre ++ [i])) sel = true).
+      { apply existsb_exists. eexists. split; [exact Hs|]. apply path_eqb_refl. }
+      rewrite E, Ha. reflexivity.
+    - rewrite cands_f_DE in Hin. destruct (stored_list ds IH (pre ++ [i]) O tf y Hin Hs Ha) as (k & q & d & E & N & W).
+      cbn [Nat.add] in E. exists (k :: q). split; [rewrite E, <- app_assoc; reflexivity|].
+      rewrite rebuild_f_DE.
+      assert (X : existsb (fun tf' => is_prefix (pre ++ [i]) (tf_path tf') && has_key acc (f_name (tf_fi tf'))) sel = true).
+      { apply existsb_exists. exists tf. split; [exact Hs|]. rewrite E, is_prefix_app. unfold has_key. now rewrite Ha. }
+      rewrite X. cbn [negb]. rewrite andb_false_r. cbn [walk1]. rewrite walk_cons, N. exact W.
+  Qed.
+End Stored.
+
+(* for every entry of the table whose key was decoded, the fresh struct holds the decoded value at exactly the
+   index sequence of that entry (the one the encoder read it through), every embedded pointer on the way
+   allocated *)
+Theorem decoder_stores ds acc tf y : In tf (type_fields ds) -> assoc (f_name (tf_fi tf)) acc = Some y ->
+  walk (tf_path tf) (rebuild_l (type_fields ds) acc [] O ds) = Some (Some y).
+Proof.
+  intros Hs Ha. pose proof (type_fields_in ds tf Hs) as [Hc _].
+  assert (L : stored_l (type_fields ds) acc ds).
+  { apply stored_list. apply Forall_forall. intros d _. apply stored_all. }
+  destruct (L [] O tf y Hc Hs Ha) as (k & q & d & E & N & W). cbn [app Nat.add] in E.
+  rewrite E, walk_cons, N. exact W.
+Qed.
